@@ -7,6 +7,8 @@ import (
 	"fmt"
 	"os"
 	"path/filepath"
+	"runtime"
+	"runtime/pprof"
 	"sort"
 	"strconv"
 	"strings"
@@ -228,6 +230,9 @@ func RunProp[C any](t *testing.T, p Prop[C]) {
 			_ = os.WriteFile(filepath.Join(dir, "current-case.json"), cur, 0o644)
 		}
 		v := p.Run(t, c)
+		if v.Harness == "" {
+			v.Harness = memGuard()
+		}
 		mu.Lock()
 		defer mu.Unlock()
 		if v.Harness != "" {
@@ -280,6 +285,41 @@ func RunProp[C any](t *testing.T, p Prop[C]) {
 }
 
 type harnessPanic string
+
+var memChecks int
+
+// memGuard keeps a test process from exhausting the machine: every 8 cases
+// the live heap is measured; above VERIF_MEM_LIMIT_MB (default 5000) the run
+// ends as inconclusive (a heap profile is written to VERIF_MEM_PROFILE if set).
+func memGuard() string {
+	memChecks++
+	if memChecks%8 != 0 {
+		return ""
+	}
+	limit := uint64(5000)
+	if s := os.Getenv("VERIF_MEM_LIMIT_MB"); s != "" {
+		if n, err := strconv.ParseUint(s, 10, 64); err == nil && n > 0 {
+			limit = n
+		}
+	}
+	var ms runtime.MemStats
+	runtime.ReadMemStats(&ms)
+	if ms.HeapInuse>>20 <= limit {
+		return ""
+	}
+	runtime.GC()
+	runtime.ReadMemStats(&ms)
+	if ms.HeapInuse>>20 <= limit {
+		return ""
+	}
+	if f := os.Getenv("VERIF_MEM_PROFILE"); f != "" {
+		if fh, err := os.Create(f); err == nil {
+			_ = pprof.WriteHeapProfile(fh)
+			fh.Close()
+		}
+	}
+	return fmt.Sprintf("memory guard: %d MB of heap in use after %d cases (limit %d MB)", ms.HeapInuse>>20, memChecks, limit)
+}
 
 type regressHit struct {
 	file     string
